@@ -19,7 +19,21 @@ TE2e ==
        /\ o.clearOnWire = ~x.enc                   \* the clear payload never travels next to / instead of the ciphertext
        /\ o.delivered = x.delivered                \* never "altered"
        /\ IF x.call = "notok" THEN o.call \in {"failed", "pending"} ELSE o.call = x.call
-TraceSpec == TInit /\ [][TE2e]_tvars
+\* a live keyring: one publication per step, the keys installed at that moment decide
+TLive ==
+  /\ l <= Len(Traces[tid]) /\ E.ev = "live" /\ l' = l + 1 /\ UNCHANGED <<tid, dir, layout, fault>>
+  /\ E.esc = ""
+  /\ \A i \in 1..Len(E.steps) :
+       LET st == E.steps[i] x == LiveExpect(st.ko, st.kr) IN
+         /\ st.ko \in KeyStates /\ st.kr \in KeyStates
+         /\ st.encOnWire = x.enc /\ st.clearOnWire = ~x.enc /\ st.delivered = x.delivered
+\* an application error under a keyed URI raised by a procedure that was called in clear
+TErrKeyed ==
+  /\ l <= Len(Traces[tid]) /\ E.ev = "errkeyed" /\ l' = l + 1 /\ UNCHANGED <<tid, dir, layout, fault>>
+  /\ E.obs.esc = "" /\ E.obs.alive
+  /\ E.obs.encOnWire = ErrKeyedExpect.enc /\ E.obs.clearOnWire = ~ErrKeyedExpect.enc
+  /\ E.obs.delivered = ErrKeyedExpect.delivered /\ E.obs.call = ErrKeyedExpect.call
+TraceSpec == TInit /\ [][TE2e \/ TLive \/ TErrKeyed]_tvars
 Progress == TLCSet(tid, IF TLCGet(tid) < l THEN l ELSE TLCGet(tid))
 Post ==
   LET rej == {i \in 1..N : TLCGet(i) # Len(Traces[i]) + 1} IN
